@@ -8,5 +8,6 @@ CONSTANTS
 INIT Init
 NEXT Next
 VIEW view
-INVARIANTS ExactlyOnceAtFirst StrictlyIncreasing TypeOK
+INVARIANTS ExactlyOnceAtFirst StrictlyIncreasing TypeOK IndInvAll
+PROPERTY RefinesInd
 CHECK_DEADLOCK FALSE
